@@ -254,7 +254,8 @@ def _unb64(s):
 
 
 def pick_source(rng, small=False):
-  fmt = rng.choice(FORMATS)
+  # TTML has by far the largest vocabulary and feeds every downstream stage: it gets a double share
+  fmt = rng.choice(FORMATS + ["ttml"])
   files = corpus()[fmt]
   if files and rng.random() < (0.3 if not small else 0.15):
     rel = rng.choice(files)
